@@ -291,6 +291,41 @@ def check(run):
             b = ['nd', dt, list(reversed(shape)), tv]
             if a != b:
                 judge('transpose', norm(('task', 'f', [a], [])), norm(('task', 'f', [b], [])))
+    # views of views whose identifiers are computed while the objects are being built / afterwards: different operands, different identifiers
+    from jugverif import hashhist
+    hashhist.order_family(run, 'C08')
+    # arrays of a subclass (matrix, masked array, record array) against the plain array over the same bytes, and masked arrays that differ only in the
+    # mask: different values (type / mask are part of the value), also nested in containers
+    import numpy as _np
+    import warnings as _w
+    from jug import Task as _Task
+    from jug.hash import hash_one as _h1
+    from jugverif import hashmodel as _hm
+    with _w.catch_warnings():
+        _w.simplefilter('ignore')
+        _rdt = [('a', '<i4'), ('b', '<f8')]
+        sub_pairs = [
+            ('np.matrix vs ndarray', _np.matrix([[1, 2], [3, 4]]), _np.array([[1, 2], [3, 4]])),
+            ('masked arrays differing in the mask', _np.ma.array([1, 2, 3], mask=[0, 1, 0]), _np.ma.array([1, 2, 3], mask=[0, 0, 1])),
+            ('masked array vs ndarray', _np.ma.array([1, 2, 3], mask=[0, 1, 0]), _np.array([1, 2, 3])),
+            ('unmasked masked array vs ndarray', _np.ma.array([1.5, 2.5]), _np.array([1.5, 2.5])),
+            ('recarray vs structured ndarray', _np.rec.array([(1, 2.0), (3, 4.0)], dtype=_rdt), _np.array([(1, 2.0), (3, 4.0)], dtype=_rdt)),
+            ('2-d masked arrays differing in one mask bit', _np.ma.array([[1, 2], [3, 4]], mask=[[0, 0], [0, 1]]), _np.ma.array([[1, 2], [3, 4]], mask=[[0, 0], [1, 0]])),
+        ]
+    for label, a_, b_ in sub_pairs:
+        for wrapname, wrap in (('top', lambda x: x), ('in-list', lambda x: [x, 1]), ('in-dict', lambda x: {'k': x}), ('in-tuple-in-list', lambda x: [(0, x)])):
+            run.case(('subclass-pair', label, wrapname), nontrivial=True)
+            run.count('array_subclass_pairs')
+            try:
+                ha, hb = _Task(_hm.f, wrap(a_)).hash(), _Task(_hm.f, wrap(b_)).hash()
+            except Exception as e:
+                run.fail('hash-raises', 'hashing a task over %s (%s) raised %s: %s' % (label, wrapname, type(e).__name__, e), {'kind': 'subclass-pair', 'label': label, 'wrap': wrapname})
+                continue
+            if ha == hb:
+                run.fail('collision:array-subclass', 'f(%s) with the argument %s: %r and %r are different values (type %s vs %s) but the two invocations share the identifier %s'
+                         % (wrapname, label, a_, b_, type(a_).__name__, type(b_).__name__, ha[:16]), {'kind': 'subclass-pair', 'label': label, 'wrap': wrapname})
+    import jug.task as _jt
+    del _jt.alltasks[:]
     # functions of the same name in different modules are different functions (plain tasks, tasklets, and every way map/mapreduce/
     # currymap/reduce embed their mapper and reducer, plain or wrapped by TaskGenerator)
     import jug.task
